@@ -287,14 +287,17 @@ def run(ctx):
         'map keys are atoms (nat/string); contents are atoms or pairs of atoms; no lambdas, sets, or-types in the modelled set',
         'big_map values live in the in-memory diff only (the offline context has no stored big_map); ITER over a big_map with removed keys '
         'and DUP 0 are reported as `unmodelled` by the model and not compared',
-        'conservation is proved for executions whose UPDATE / GET_AND_UPDATE store values of the declared value type (ghost flag `typedStores`): '
-        'pytezos has no dynamic check there, the Michelson type checker rejects such programs; the oracle scopes conservation / copy findings '
-        'that follow an ill-typed store under a separate key prefix and does not report them',
+        'conservation is proved (a) for every program accepted by the static checker `wellTyped` (Michelson rules; MAP only with a body that '
+        'gives back the element type, because pytezos returns an empty source collection unchanged) and (b) for every other execution whose '
+        'UPDATE / GET_AND_UPDATE store values of the declared value type (ghost flag `typedStores`): pytezos has no dynamic check there, the '
+        'Michelson type checker rejects such programs; the oracle scopes conservation / copy findings that follow an ill-typed store under a '
+        'separate key prefix and does not report them; for every compared program the checker accepts, the run must not show an ill-typed store',
         'TicketType.create is wrapped in-process to log mints (no hook in /repo)',
     ]
     n_prog = 2000 if quick else 18000
     real = Real()
     cases, lines, impl, pend = [], [], [], []
+    ill_typed = {}
     try:
         for pi in range(n_prog + len(G.CORPUS)):
             noise = rng.choice([0.0, 0.0, 0.05, 0.15])
@@ -330,6 +333,7 @@ def run(ctx):
             lines.append(G.line_of(segs))
             impl.append(got)
             pend.append((segs, found))
+            ill_typed[text] = bool(state.get('ill_typed_store'))
 
         model = ctx.model(lines)
         shrunk = set()
@@ -350,7 +354,7 @@ def run(ctx):
         real.close()
 
     if model is not None:
-        for text, a, b in zip(cases, impl, model):
+        for (text, a, b), (segs, found) in zip(zip(cases, impl, model), pend):
             if b in ('unmodelled', 'fuel'):
                 ctx.count('model', b)
                 continue
@@ -358,6 +362,14 @@ def run(ctx):
             if b.startswith('ok '):
                 parts = b.split(' ')
                 ctx.count('typedStores', parts[1])
-                b = ' '.join(['STACK'] + parts[2:])
+                ctx.count('accepted_by_static_checker', parts[2])
+                # `C20.type_preservation`: a program the checker accepts never performs an ill-typed store — in the mirror
+                # (ghost flag) and, through the correspondence, in the real run (the oracle's own observation)
+                if parts[2] == '1' and parts[1] != '1':
+                    ctx.mismatch('static-typing', {'program': text[:600]}, 'typedStores=1', 'typedStores=0 for a program accepted by wellTyped')
+                if parts[2] == '1' and ill_typed[text]:
+                    ctx.mismatch('static-typing', {'program': text[:600]}, 'real run stores a value of another class than the map declares',
+                                 'accepted by wellTyped')
+                b = ' '.join(['STACK'] + parts[3:])
             if a != b:
                 ctx.mismatch('ticket-interpreter', {'program': text[:600]}, a[:400], b[:400])
